@@ -23,9 +23,21 @@ def random_net(rng, nv, nh, mag):
                 b=[nz(rng, mag) for _ in range(nv)], c=[nz(rng, mag) for _ in range(nh)])
 
 
-def random_point(rng, nvmax=5, nhmax=6, budget=1700):
+# extreme=True: the far corner of parameter space - visible biases all strongly negative and the other
+# parameters small, so that some basis states carry an unnormalised weight far below any fixed floor
+# (1e-8, 1e-12, float32 eps ...) while every quantity stays representable
+def random_point(rng, nvmax=5, nhmax=6, budget=1700, extreme=False):
     """all parameters non-zero; magnitudes up to ~30 real units (43 lattice units for B = 2);
     the sum of |t| stays below the power-table bound"""
+    if extreme:
+        nv, nh = rng.randint(2, nvmax), rng.randint(1, min(2, nhmax))
+        B = rng.choice([2, 3])
+        npar = nv * nh + nv + nh
+        top = 43 if B == 2 else 27
+        m = max(2, min(top, (budget - 2 * (npar - nv)) // nv))
+        am = random_net(rng, nv, nh, 2)
+        am["b"] = [-rng.randint(max(1, (2 * m) // 3), m) for _ in range(nv)]
+        return dict(nv=nv, nh=nh, B=B, am=am, ph=random_net(rng, nv, nh, 2))
     nv, nh = rng.randint(1, nvmax), rng.randint(1, nhmax)
     B = rng.choice([2, 3])
     top = 43 if B == 2 else 27
@@ -142,7 +154,16 @@ def space(nv):
 
 
 # ---- purification RBM / density matrix -------------------------------------------------------
-def random_purif_point(rng, nvmax=4, nhmax=4, namax=4, budget=1700, small=False):
+def random_purif_point(rng, nvmax=4, nhmax=4, namax=4, budget=1700, small=False, extreme=False):
+    if extreme:
+        pt = random_purif_point(rng, nvmax, min(2, nhmax), min(2, namax), budget, small=True)
+        while pt["nv"] < 2 <= nvmax:
+            pt = random_purif_point(rng, nvmax, min(2, nhmax), min(2, namax), budget, small=True)
+        top = 43 if pt["B"] == 2 else 27
+        npar = pt["nv"] * pt["nh"] + 2 * pt["nv"] * pt["na"] + pt["nv"] + pt["nh"] + 2 * pt["na"]
+        m = max(2, min(top, (budget - 3 * (npar - pt["nv"])) // pt["nv"]))
+        pt["b"] = [-rng.randint(max(1, (2 * m) // 3), m) for _ in range(pt["nv"])]
+        return pt
     nv, nh, na = rng.randint(1, nvmax), rng.randint(1, nhmax), rng.randint(1, namax)
     B = rng.choice([2, 3])
     top = 43 if B == 2 else 27
